@@ -4,8 +4,8 @@ CONSTANTS
   WithQueries = FALSE
   WithMixed = FALSE
   HeavyLaws = FALSE
+  SlimGates = TRUE
   Mutant <- NoMutant
 VIEW View
-INVARIANT ImplRoutes
-INVARIANT PureIdentities
+INVARIANT ImplRoutes4
 CHECK_DEADLOCK FALSE
